@@ -29,7 +29,9 @@ CONSTANTS
     MaxDKeys,      \* keys of a **dict-literal
     Unknowns,      \* TRUE: also star arguments typed list[int] / tuple[int, ...] / dict[str, int]
     MaxExp,        \* expansions of unknown-length star arguments are enumerated up to this length
-    Mutant,        \* "none", or the name of a bug switched on in the model (sensitivity self-test)
+    Mutant,        \* "none", or a bug switched on in the model (sensitivity self-test):
+                   \*   "drop_both_given"       positional + keyword for one parameter not detected
+                   \*   "ignore_extra_keywords" the final unexpected-keyword check dropped
     FixStarKw,     \* TRUE: model the repair proposed in proposed/C05-fix-1.diff
     FixExtraKw     \* TRUE: model the repair proposed in proposed/C05-fix-2.diff
 
@@ -125,7 +127,7 @@ PosName(i) == <<"P0", "P1", "P2", "P3", "P4", "P5", "P6", "P7">>[i + 1]
 \* which branch of the loop body is taken for parameter sig[st.idx]
 ImplBranch(sig, a, st) ==
     LET p == sig[st.idx]
-        nm == Names[st.idx]
+        nm == p.name
     IN CASE p.kind = "po" ->                                                    \* :821
               IF st.pidx < a.npos THEN "PO_FromPositional"                      \* :822
               ELSE IF a.star THEN "PO_FromStar"                                 \* :846
@@ -136,9 +138,10 @@ ImplBranch(sig, a, st) ==
               THEN (IF nm \in a.kws /\ Mutant # "drop_both_given"
                     THEN "PK_BothGiven"                                         \* :885-894
                     ELSE "PK_FromPositional")
-              ELSE IF a.star /\ ~st.sax                                         \* :895
-                   THEN (IF nm \in a.kws                                        \* :896
-                         THEN (IF FixStarKw /\ st.sac THEN "PK_FromKeyword" ELSE "PK_StarAndKeyword")
+              ELSE IF a.star /\ ~st.sax                                         \* :895 (sax is always FALSE
+                   THEN (IF nm \in a.kws                                        \* :896   unless FixStarKw)
+                         THEN (IF FixStarKw /\ st.sac THEN "PK_FromKeyword"     \* only with the proposed repair
+                               ELSE "PK_StarAndKeyword")                        \* :897
                          ELSE "PK_FromStar")
               ELSE IF nm \in a.kws THEN "PK_FromKeyword"                        \* :918
               ELSE IF a.skw THEN "PK_FromStarKwargs"                            \* :933
@@ -147,7 +150,7 @@ ImplBranch(sig, a, st) ==
          [] p.kind = "ko" ->                                                    \* :951
               IF nm \in a.kws THEN "KO_FromKeyword"                             \* :952
               ELSE IF a.skw THEN "KO_FromStarKwargs"                            \* :974
-              ELSE IF p.dflt /\ Mutant # "ko_default_missing" THEN "KO_Default" \* :984
+              ELSE IF p.dflt THEN "KO_Default"                                  \* :984
               ELSE "KO_Missing"                                                 \* :988
          [] p.kind = "va" ->                                                    \* :993
               IF st.pidx < a.npos \/ a.star THEN "VA_Some" ELSE "VA_Empty"      \* :1018
@@ -157,7 +160,7 @@ ImplBranch(sig, a, st) ==
 \* the effect of each branch on the loop state
 ImplEffect(b, sig, a, st) ==
     LET p == sig[st.idx]
-        nm == Names[st.idx]
+        nm == p.name
         Bound(pos) == [st EXCEPT !.idx = @ + 1, !.bound = Append(@, pos)]
         Fail == [st EXCEPT !.verdict = "err", !.why = b]
         FromStar == IF p.dflt THEN "UNKNOWN" ELSE "ARGS"          \* :847-850, :904-907
@@ -228,7 +231,7 @@ Dev_StarArgsThenKeyword(c) ==
     /\ UnknownStar(c.call)
     /\ \E i \in DOMAIN c.sig :
          /\ c.sig[i].kind = "pk"
-         /\ Names[i] \in ToSet(c.call.kws) \cup ToSet(c.call.dkeys)
+         /\ c.sig[i].name \in ToSet(c.call.kws) \cup ToSet(c.call.dkeys)
          /\ i >= c.call.pos + c.call.post + 2
 
 (***************************************************************************)
@@ -242,7 +245,7 @@ Dev_StarArgsThenKeyword(c) ==
 Dev_KeywordHiddenByStarKwargs(c) ==
     /\ UnknownDstar(c.call)
     /\ ~Has(c.sig, "vk")
-    /\ \E k \in ToSet(c.call.kws) : \A i \in DOMAIN c.sig : c.sig[i].kind \in {"pk", "ko"} => Names[i] # k
+    /\ \E k \in ToSet(c.call.kws) : \A i \in DOMAIN c.sig : c.sig[i].kind \in {"pk", "ko"} => c.sig[i].name # k
 
 (***************************************************************************)
 (* The machine: staged generator, then the binder                          *)
@@ -263,7 +266,7 @@ NextBranch(sig, a, s) ==
 AddParam ==
     /\ stage = "params" /\ Len(case.sig) < MaxParams
     /\ \E k \in ParamKinds, d \in BOOLEAN :
-         LET sig2 == Append(case.sig, [kind |-> k, dflt |-> d])
+         LET sig2 == Append(case.sig, [kind |-> k, name |-> Names[Len(case.sig) + 1], dflt |-> d])
          IN ValidSig(sig2) /\ case' = [case EXCEPT !.sig = sig2]
     /\ UNCHANGED <<stage, act, st, br>>
 
@@ -280,7 +283,7 @@ ChoosePositional ==
          /\ case' = [case EXCEPT !.call.pos = np, !.call.star = s, !.call.post = q]
     /\ stage' = "keywords" /\ UNCHANGED <<act, st, br>>
 
-NameUniverse(sig) == {Names[i] : i \in DOMAIN sig} \cup {Extra}
+NameUniverse(sig) == {sig[i].name : i \in DOMAIN sig} \cup {Extra}
 
 ChooseKeywords ==
     /\ stage = "keywords"
